@@ -1,6 +1,7 @@
 //! tracegen: drives the real griddle crate through seeded, phase-directed histories, records one
 //! trace record per operation (for the Coq model comparator) and runs the property monitors.
 mod rt;
+mod set;
 use griddle::hash_map::{Entry, RawEntryMut};
 use griddle::HashMap;
 use rt::*;
@@ -1669,6 +1670,42 @@ fn main() {
             continue;
         }
         let hseed = seed.wrapping_mul(1_000_003).wrapping_add(h);
+        if family == "set" {
+            // HashSet histories have their own driver (set.rs); same trace format
+            let mut sx = set::SCtx {
+                sets: (0..3).map(|_| None).collect(),
+                refs: (0..3).map(|_| BTreeMap::new()).collect(),
+                out: String::new(),
+                rng: Rng::new(hseed),
+                next_kid: 0,
+                hist_id: format!("{}:{}:{}", family, seed, h),
+                opi: 0,
+                stats: BTreeMap::new(),
+                classes: Default::default(),
+                monitors,
+                tab_allocs: 0,
+                tab_frees: 0,
+                abort: false,
+            };
+            let probe: griddle::HashSet<K, HB> = griddle::HashSet::with_hasher(HB { kind: 0, id: 0 });
+            let r = probe.verif_state().r;
+            drop(probe);
+            writeln!(sx.out, "H {} {} 0 {} {}", r, debug as u8, std::mem::size_of::<(K, ())>(), sx.hist_id).unwrap();
+            if let Some(ref p) = progressp {
+                let _ = std::fs::write(p, format!("{}\n", sx.hist_id));
+            }
+            set::history(&mut sx, maxops);
+            for (p, m) in PEND.with(|p| std::mem::take(&mut *p.borrow_mut())) {
+                writeln!(sx.out, "V {} {}", p, m).unwrap();
+                all_viol.push((p, m));
+            }
+            file.write_all(sx.out.as_bytes()).unwrap();
+            for (k, v) in sx.stats {
+                *all_stats.entry(k).or_insert(0) += v;
+            }
+            all_classes.extend(sx.classes);
+            continue;
+        }
         let mut cx = Ctx {
             maps: (0..NSLOTS).map(|_| None).collect(),
             refs: (0..NSLOTS).map(|_| None).collect(),
